@@ -245,7 +245,9 @@ def run_case(case, acc):
             ref = reference(subjects)
             finished = {r[0] for r in before if r != ref["header"] and len(r) == len(ref["header"])}
             CountingEvaluator.calls = []
-            session(subjects, None, True)
+            # the final session resubmits in the original or (for odd crash-point sums) the reversed order
+            final_order = list(reversed(subjects)) if ((k1 or 0) + (k2 or 0)) % 2 else list(subjects)
+            session(final_order, None, True)
             if LAST_ERROR:
                 e = LAST_ERROR[0]
                 acc.violation(f"C17:session_raised:{type(e).__name__}:{init}", c2, f"{tag}: a session raised {e!r}; output file now:\n{vfs.fs.files.get(OUT, '<absent>')[:200]}")
